@@ -291,7 +291,18 @@ func parseValues(s string, n int) ([]uint64, bool) {
 	return vals, true
 }
 
+// runOn decides one query on the named solver. A transport-level failure (the
+// solver process died, a pipe error, an "(error" answer) is retried once on a
+// fresh process before it is counted as a solver error.
 func (s *Solver) runOn(kind string, script string, vars []*Term, wantModel bool) (SatResult, Model, bool) {
+	r, m, isErr := s.runOnce(kind, script, vars, wantModel, false)
+	if isErr {
+		r, m, isErr = s.runOnce(kind, script, vars, wantModel, true)
+	}
+	return r, m, isErr
+}
+
+func (s *Solver) runOnce(kind string, script string, vars []*Term, wantModel bool, final bool) (SatResult, Model, bool) {
 	p, err := s.proc(kind)
 	if err != nil {
 		return Unknown, nil, true
@@ -382,7 +393,7 @@ func (s *Solver) runOn(kind string, script string, vars []*Term, wantModel bool)
 		p.kill()
 		delete(s.procs, kind)
 	}
-	s.stats.add(kind, out.r, time.Since(start), out.isErr)
+	s.stats.add(kind, out.r, time.Since(start), out.isErr && final)
 	if dir := os.Getenv("VCHECK_SLOWDUMP"); dir != "" && time.Since(start) > 5*time.Second {
 		slowN++
 		os.WriteFile(fmt.Sprintf("%s/slow-%s-%d-%d.smt2", dir, kind, os.Getpid(), slowN), []byte(script+"(check-sat)\n"), 0o644)
